@@ -1484,3 +1484,144 @@ Proof.
       assert (E : as_i16 x = Ok x) by (apply as_i16_iff; unfold fits_i16; split; [reflexivity|lia]).
       rewrite E. simpl. f_equal. symmetry. apply Z.mod_unique with (q := (-1)%Z); lia.
 Qed.
+
+(** ** When is a label-shaped token not an integer? *)
+
+Lemma digit_loop_overflow : forall R eoi ds rest acc m,
+  (0 <= acc <= i32_max)%Z -> digits_value (radix_val R) ds acc = Some m -> (m > i32_max)%Z ->
+  digit_loop R eoi (ds ++ rest) acc = LEarly (Err (IntegerTooLarge 32767)).
+Proof.
+  intros R eoi ds rest. induction ds as [|c ds IH]; intros acc m Ha Hv Hm.
+  - simpl in Hv. inversion Hv. lia.
+  - simpl in *. rewrite digit_agree.
+    destruct (digit_of (radix_val R) c) as [d|] eqn:E; [|discriminate].
+    pose proof (digit_range _ _ _ E) as Hd. pose proof (radix_val_range R) as HR.
+    unfold checked_mul. destruct (in_i32 (acc * radix_val R)) eqn:H1; [|reflexivity].
+    unfold checked_add. destruct (in_i32 (acc * radix_val R + d)) eqn:H2; [|reflexivity].
+    apply in_i32_iff in H2. apply (IH _ m); auto.
+    split; [|lia]. destruct R; simpl radix_val in *; lia.
+Qed.
+
+Lemma digit_loop_too_large_inv : forall R eoi cs acc,
+  (0 <= acc <= i32_max)%Z -> eoi <> Err (IntegerTooLarge 32767) ->
+  digit_loop R eoi cs acc = LEarly (Err (IntegerTooLarge 32767)) ->
+  exists ds rest m, cs = ds ++ rest /\ digits_value (radix_val R) ds acc = Some m /\ (m > i32_max)%Z.
+Proof.
+  intros R eoi cs. induction cs as [|c cs IH]; intros acc Ha He H; [discriminate|].
+  simpl in H. rewrite digit_agree in H.
+  destruct (digit_of (radix_val R) c) as [d|] eqn:E; [|inversion H; contradiction].
+  pose proof (digit_range _ _ _ E) as Hd.
+  assert (Hnn : (0 <= acc * radix_val R)%Z) by (destruct R; simpl radix_val in *; lia).
+  unfold checked_mul in H. destruct (in_i32 (acc * radix_val R)) eqn:H1.
+  - unfold checked_add in H. destruct (in_i32 (acc * radix_val R + d)) eqn:H2.
+    + apply in_i32_iff in H2. destruct (IH (acc * radix_val R + d)%Z ltac:(lia) He H) as (ds & rest & m & -> & Hv & Hm).
+      exists (c :: ds), rest, m. split; [reflexivity|]. split; [|exact Hm]. simpl. rewrite E. exact Hv.
+    + exists [c], cs, (acc * radix_val R + d)%Z. split; [reflexivity|]. split; [simpl; rewrite E; reflexivity|].
+      assert (~ (i32_min <= acc * radix_val R + d <= i32_max)%Z).
+      { intros Hx. apply in_i32_iff in Hx. congruence. }
+      unfold i32_min in *. lia.
+  - exists [c], cs, (acc * radix_val R + d)%Z. split; [reflexivity|]. split; [simpl; rewrite E; reflexivity|].
+    assert (~ (i32_min <= acc * radix_val R <= i32_max)%Z).
+    { intros Hx. apply in_i32_iff in Hx. congruence. }
+    unfold i32_min in *. lia.
+Qed.
+
+Definition radix_of_letter (c : N) : option radix :=
+  if (c =? 98) || (c =? 66) then Some Binary
+  else if (c =? 111) || (c =? 79) then Some Octal
+  else if (c =? 120) || (c =? 88) then Some Hex
+  else None.
+
+Lemma radix_of_letter_spec : forall c,
+  radix_letter c = match radix_of_letter c with Some R => Some (radix_val R) | None => None end.
+Proof. intros c. unfold radix_letter, radix_of_letter. ifs; reflexivity. Qed.
+
+Lemma radix_of_letter_not_decimal : forall c R, radix_of_letter c = Some R -> radix_eqb R Decimal = false.
+Proof. intros c R. unfold radix_of_letter. ifs; intros H; inversion H; reflexivity. Qed.
+
+(** A token that starts with a label character: the integer parser's first half. *)
+Lemma pi_label_shaped : forall c t, label_start c = true ->
+  parse_integer (c :: t) false =
+  match radix_of_letter c with
+  | Some R => pi_tail None R false t
+  | None => Ok None
+  end.
+Proof.
+  intros c t Hc. rewrite pi_unfold.
+  assert (Hcls : c <> 43 /\ c <> 45 /\ c <> 48 /\ c <> 35 /\ between 48 c 57 = false).
+  { unfold label_start, is_lower, is_upper, between in *. cmp_in Hc; simpl in Hc; try discriminate;
+      repeat split; try lia; cmp; try reflexivity; lia. }
+  destruct Hcls as (H1 & H2 & H3 & H4 & H5).
+  unfold take_sign. destruct (N.eqb_spec c 43); [contradiction|]. destruct (N.eqb_spec c 45); [contradiction|].
+  simpl andb. cbv iota. unfold take_prefix. destruct (N.eqb_spec c 48); [contradiction|].
+  unfold radix_of_letter.
+  destruct ((c =? 98) || (c =? 66)); [reflexivity|].
+  destruct ((c =? 111) || (c =? 79)); [reflexivity|].
+  destruct ((c =? 120) || (c =? 88)); [reflexivity|].
+  destruct (N.eqb_spec c 35); [contradiction|]. rewrite H5.
+  destruct (N.eqb_spec c 45); [contradiction|]. destruct (N.eqb_spec c 43); [contradiction|]. reflexivity.
+Qed.
+
+Lemma pi_tail_signed_not_none : forall R lz x t, (x = 43 \/ x = 45) ->
+  pi_tail None R lz (x :: t) <> Ok None.
+Proof.
+  intros R lz x t Hx. unfold pi_tail, take_sign.
+  assert (E : exists s, (if x =? 43 then (Some Positive, t) else if x =? 45 then (Some Negative, t) else (None, x :: t))
+                        = (Some s, t)).
+  { destruct Hx as [-> | ->]; eexists; reflexivity. }
+  destruct E as [s ->]. simpl orb. cbv iota.
+  destruct t as [|c t']; [discriminate|].
+  destruct (digit_loop R (Err MalformedInteger) (c :: t') 0) as [m rest|r] eqn:EL.
+  - destruct rest; [|discriminate]. destruct (in_i32 (m * sign_val s)); discriminate.
+  - destruct (digit_loop_early _ _ _ _ _ EL) as [-> | ->]; discriminate.
+Qed.
+
+Lemma pi_none_iff : forall c t, label_start c = true ->
+  (parse_integer (c :: t) false = Ok None <->
+   (forall v, ~ IntSyn (c :: t) v) /\ ~ PrefixedLike (c :: t) /\ ~ TooLargeLike (c :: t)).
+Proof.
+  intros c t Hc. pose proof (pi_label_shaped c t Hc) as Hp.
+  pose proof (radix_of_letter_spec c) as Hrl.
+  split.
+  - intros H. split; [|split].
+    + intros v Hv. apply parse_integer_complete in Hv. congruence.
+    + intros (c' & r & sg & rest & Hr & E & Hsg). inversion E; subst c' t.
+      rewrite Hrl in Hr. destruct (radix_of_letter c) as [R|]; [|discriminate].
+      rewrite Hp in H. exact (pi_tail_signed_not_none R false sg rest Hsg H).
+    + intros (c' & r & ds & rest & m & Hr & E & Hv & Hm). inversion E; subst c' t.
+      rewrite Hrl in Hr. destruct (radix_of_letter c) as [R|] eqn:ER; [|discriminate].
+      inversion Hr; subst r. rewrite Hp in H.
+      assert (Hds : exists d ds', ds = d :: ds' /\ exists dv, digit_of (radix_val R) d = Some dv).
+      { destruct ds as [|d ds']; [simpl in Hv; inversion Hv; unfold i32_max in *; lia|].
+        simpl in Hv. destruct (digit_of (radix_val R) d) eqn:Ed; [eauto|discriminate]. }
+      destruct Hds as (d & ds' & -> & dv & Hd).
+      assert (Ets : take_sign ((d :: ds') ++ rest) = (None, (d :: ds') ++ rest)).
+      { exact (proj1 (take_sign_app [] 1 ((d :: ds') ++ rest) Sg_none
+                        (digit_not_sign _ _ _ (ds' ++ rest) Hd))). }
+      unfold pi_tail in H. rewrite Ets in H.
+      rewrite (digit_loop_overflow R _ (d :: ds') rest 0 m) in H; auto; [|unfold i32_max; lia].
+      simpl app in H. discriminate.
+  - intros (Hni & Hnp & Hnt). rewrite Hp. destruct (radix_of_letter c) as [R|] eqn:ER; [|reflexivity].
+    assert (Hrc : radix_letter c = Some (radix_val R)) by (rewrite Hrl; reflexivity).
+    unfold pi_tail. destruct (take_sign t) as [ss c3] eqn:Ets.
+    destruct (take_sign_inv _ _ _ Ets) as (sg2 & -> & Hs2 & Eopt & _).
+    destruct ss as [s|].
+    { exfalso. apply Hnp. inversion Hs2; subst; try discriminate.
+      - exists c, (radix_val R), 43, c3. auto.
+      - exists c, (radix_val R), 45, c3. auto. }
+    assert (sg2 = []) by (inversion Hs2; subst; try reflexivity; vm_compute in Eopt; discriminate).
+    subst sg2. simpl app in *.
+    rewrite (radix_of_letter_not_decimal c R ER). simpl orb. cbv iota.
+    destruct c3 as [|x c3']; [reflexivity|].
+    destruct (digit_loop R (Ok None) (x :: c3') 0) as [m rest|r] eqn:EL.
+    + exfalso. assert (H0 : (0 <= 0 <= i32_max)%Z) by (unfold i32_max; lia).
+      destruct (digit_loop_done _ _ _ _ _ _ H0 EL) as (-> & Hv & Hm).
+      apply (Hni m). replace m with (1 * 1 * m)%Z by lia.
+      apply (Int_prefixed [] 1 [c] (radix_val R) [] 1 (x :: c3') m); auto; try constructor; try discriminate; try lia.
+      exact Hrc.
+    + destruct (digit_loop_early _ _ _ _ _ EL) as [-> | ->]; [reflexivity|].
+      exfalso. apply Hnt.
+      destruct (digit_loop_too_large_inv R (Ok None) (x :: c3') 0) as (ds & rest & m & E & Hv & Hm);
+        [unfold i32_max; lia|discriminate|exact EL|].
+      exists c, (radix_val R), ds, rest, m. rewrite E. auto.
+Qed.
